@@ -100,6 +100,41 @@ func C19(c *core.Ctx) {
 			return
 		}
 	}
+	// the whole range of the 16-bit keep-alive field: values around the powers of two and
+	// around 65536/1.2 (the broker allows 1.2 K; arithmetic in a narrow type would wrap there)
+	bigKs := []int{255, 256, 32767, 32768, 54613, 54614, 54615, 54620, 60000, 65535}
+	for i, k := range bigKs {
+		if !c.Thorough() && i%2 == 1 && k != 54614 && k != 65535 {
+			continue
+		}
+		K := time.Duration(k) * time.Second
+		depth := 4
+		if c.Thorough() {
+			depth = 5
+		}
+		spec := &HistSpec{Name: fmt.Sprintf("keepalive-%ds", k),
+			Ops: []Action{{Kind: "advance", D: K * 4 / 10}, {Kind: "advance", D: K * 9 / 10}, {Kind: "advance", D: K * 16 / 10}, {Kind: "ping", Client: "X"}},
+			Depth: depth, Dedup: false,
+			Comps: map[string]bool{"closed": true, "will": true, "acks": true},
+			Prefix: []Action{
+				// (the witness is an in-process subscriber: a network witness would need a
+				// keep-alive of its own, and the field's maximum is what is examined here)
+				{Kind: "lsub", Client: "L", Filters: []string{"will/#"}, QoSs: []byte{1}},
+				{Kind: "connect", Client: "X", Opts: ConnectOpts{ClientID: "x", Clean: true, KeepAlive: uint16(k), Will: &Will{"will/x", "x is gone", 1, false}}},
+			},
+			Pre: func(hist []Action, a Action) bool { return precond(hist, a) },
+			ExtraKey: func(h *Harness) string {
+				x := h.M.conns["X"]
+				if x == nil || !x.open {
+					return "gone"
+				}
+				return fmt.Sprintf("idle=%d", h.Now-x.lastRecv)
+			}}
+		spec.Search(c)
+		if c.HasViolation() || c.Expired() {
+			return
+		}
+	}
 	c19pressure(c)
 	if c.HasViolation() || c.Expired() {
 		return
